@@ -187,6 +187,8 @@ func runCtrl(sci interface{}) {
 	if err != nil {
 		detsim.Fail("subscribe-failed", "Subscribe on a running controller: %v", err)
 	}
+	detsim.Settle()
+	h.SeedMirrors() // the witness replays strictly from here on
 	detsim.HoldTime(false)
 	dead := sc.WatchMode != ""
 	healthy := len(sc.Faults) == 0 && sc.WatchMode == ""
@@ -233,6 +235,9 @@ func runCtrl(sci interface{}) {
 			time.Sleep(ms(a.Ms))
 		case "settle":
 			detsim.Settle()
+			detsim.HoldTime(true)
+			h.SeedMirrors()
+			detsim.HoldTime(false)
 		case "check":
 			checkMid()
 		}
